@@ -12,7 +12,7 @@ wt = f"{root}/{pid}/wt"
 out = f"{root}/{pid}/out/{k}"
 env = dict(os.environ, GOFLAGS="-mod=mod", GOPROXY="off")
 def sh(cmd, cwd=wt, timeout=1200):
-    p = subprocess.run(cmd, shell=True, cwd=cwd, env=env, stdout=subprocess.PIPE, stderr=subprocess.STDOUT, text=True, timeout=timeout)
+    p = subprocess.run(cmd, shell=True, cwd=cwd, env=env, stdout=subprocess.PIPE, stderr=subprocess.STDOUT, text=True, errors="replace", timeout=timeout)
     return p.returncode, p.stdout
 def clean():
     sh("git checkout -- . && git clean -fdq")
@@ -37,7 +37,7 @@ res["confirmed"] = confirmed
 det = {}
 for c in checks:
     t0 = time.time()
-    p = subprocess.run(["./check", c, "--tier", "quick"], cwd="/verif", env=dict(os.environ, VERIF_REPO=wt, VERIF_BUILD=f"/verif/build/seed-{pid}"), stdout=subprocess.PIPE, stderr=subprocess.STDOUT, text=True, timeout=3000)
+    p = subprocess.run(["./check", c, "--tier", "quick"], cwd="/verif", env=dict(os.environ, VERIF_REPO=wt, VERIF_BUILD=f"/verif/build/seed-{pid}"), stdout=subprocess.PIPE, stderr=subprocess.STDOUT, text=True, errors="replace", timeout=3000)
     lines = [l for l in p.stdout.splitlines() if l.startswith("VIOLATION") or l.startswith("KNOWN-FINDING")]
     det[c] = {"rc": p.returncode, "lines": lines[:6], "wall_s": round(time.time() - t0, 1)}
     # replay summary of the first violation
